@@ -76,7 +76,14 @@ func BuildConvergen(dir string) (*BuildInfo, error) {
 	if err := os.WriteFile(ovFile, js, 0o644); err != nil {
 		return nil, err
 	}
-	cmd := exec.Command("go", "build", "-overlay", ovFile, "-o", info.Bin, ".")
+	args := []string{"build", "-overlay", ovFile, "-o", info.Bin}
+	if os.Getenv("VERIF_COVERDIR") != "" {
+		// measurement mode (tools/branchcov.sh): which statements of the repository do the enumerated cells reach?
+		// cmd/cover does not read overlays, so this build is the plain tree without the seams: its verdicts are
+		// not evidence (marker and map order are not owned), only its coverage counters are used.
+		args = []string{"build", "-o", info.Bin, "-cover", "-coverpkg=github.com/reedom/convergen/..."}
+	}
+	cmd := exec.Command("go", append(args, ".")...)
 	cmd.Dir = repo
 	cmd.Env = goEnv()
 	var buf bytes.Buffer
